@@ -3,3 +3,4 @@ import Iodata.Model.Rd.Xyz
 import Iodata.Model.Rd.Sdf
 import Iodata.Model.Rd.Mol2
 import Iodata.Model.Rd.Pdb
+import Iodata.Model.Rd.Cube
